@@ -236,8 +236,21 @@ class TransformationTensor(ProjectiveTensor, ABC):
         if power < 0:
             return self.inverse().__pow__(-power, modulo)
 
-        result = super().__pow__(power, modulo)
-        return type(self)(result, copy=False)
+        if modulo is not None or not isinstance(power, int):
+            return NotImplemented
+
+        # exponentiation by squaring: a single tensor diagram with `power` nodes cannot have more than 26 factors
+        # (einsum is limited to 52 indices) and is very slow for more than 10
+        result = None
+        base = self
+        while True:
+            if power & 1:
+                result = base if result is None else result * base
+            power >>= 1
+            if power == 0:
+                break
+            base = base * base
+        return type(self)(result.array, copy=result is self)
 
     def __getitem__(self, index: TensorIndex) -> Tensor | np.generic:
         result = super().__getitem__(index)
